@@ -6,5 +6,5 @@ names=${@:-$(ls seeded | grep -v RESULTS)}
 [ $# -eq 0 ] && : > seeded/RESULTS.txt
 for n in $names; do
   [ -f seeded/$n/patch.diff ] || continue
-  lib/mutant.sh $n 2>&1 | grep "^MUTANT" | tee -a seeded/RESULTS.txt | cut -c1-300
+  lib/mutant_wt.sh $n 2>&1 | grep "^MUTANT" | tee -a seeded/RESULTS.txt | cut -c1-300
 done
